@@ -139,7 +139,7 @@ def patch_tokens(isa_, patch, mid, func, bk, suffix=None):
 
     for pt in patch:
         pt = T(pt)
-        if len(pt) >= 2 and pt[0] in ("jmp", "jcc", "call", "lea", "q", "lab", "leaa", "callplt", "qa", "adrp", "addlo12"):
+        if len(pt) >= 2 and pt[0] in ("jmp", "jcc", "call", "lea", "q", "lab", "leaa", "callplt", "qa", "adrp", "addlo12", "cmpm"):
             pt = (pt[0], tl(pt[1])) + tuple(pt[2:])
         if pt[0] == "lab":
             toks.append({"t": "lab", "n": pt[1], "own": ("patch", mid), "end": False, "patch": mid})
